@@ -333,6 +333,6 @@ func c18PoolGen(rt *rapid.T) c18Case {
 }
 
 func TestVerif_C18_pool(t *testing.T) {
-	kit.Run(t, c18ID, "pool", kit.Opts{Quick: 6000, Thorough: 240000}, c18PoolGen,
+	kit.Run(t, c18ID, "pool", kit.Opts{Quick: 6000, Thorough: 200000}, c18PoolGen,
 		func(c c18Case) kit.Verdict { return c18PoolInterp(t, c) })
 }
